@@ -315,7 +315,9 @@ def main(argv=None) -> int:
     # 4. determinism self-check on a small sample, in a fresh interpreter with another hash seed
     det = {"checked": 0, "mismatch": 0}
     if not args.no_selfcheck and ordered:
-        idxs = [w["idx"] for w in ordered[:8]]
+        k = getattr(mod, "SELFCHECK_N", 8)
+        step = max(1, len(ordered) // k)
+        idxs = [w["idx"] for w in ordered[::step][:k]]
         env = dict(os.environ)
         env["PYTHONHASHSEED"] = "1" if os.environ.get("PYTHONHASHSEED", "0") != "1" else "2"
         env["VERIF_SEED"] = str(base_seed)
